@@ -295,6 +295,28 @@ impl Monitor for FrameMonitor {
             if ab.len() == 16 && frame[a_off..a_off + 16] != ab[..] {
                 return Some(("call-frame".into(), "call-frame:params".into(), format!("step {step}: call frame parameters a/b differ from the call structure")));
             }
+            // the copied code: the callee's stored bytecode, zero-padded to a word boundary
+            if callee != [0u8; 32] {
+                let stored = fuel_vm::storage::InterpreterStorage::storage_contract(&vm.as_ref().inner, &fuel_types::ContractId::new(callee))
+                    .ok()
+                    .flatten()
+                    .map(|c| c.as_ref().as_ref().to_vec());
+                if let Some(code) = stored {
+                    let padded = code.len().div_ceil(8) * 8;
+                    let at = fp + CallFrame::serialized_size() as u64;
+                    let mem = vm.memory().read(at, padded).map(|b| b.to_vec()).unwrap_or_default();
+                    if code_size != padded as u64 {
+                        return Some(("call-frame".into(), "call-frame:code-size".into(), format!("step {step}: call frame records code size {code_size}, the callee's code has {} bytes (padded {padded})", code.len())));
+                    }
+                    if mem.len() != padded || mem[..code.len()] != code[..] {
+                        return Some(("callee-code".into(), "callee-code:differs".into(), format!("step {step}: the code copied behind the call frame differs from the callee's stored bytecode")));
+                    }
+                    if mem[code.len()..].iter().any(|b| *b != 0) {
+                        return Some(("callee-code".into(), "callee-code:padding".into(), format!("step {step}: the {} padding bytes behind the copied code are not zero", padded - code.len())));
+                    }
+                    stats.inc("probe.callee_code_checked");
+                }
+            }
             // callee's first state
             let want_ssp = fp + CallFrame::serialized_size() as u64 + code_size;
             if post[SSP as usize] != post[SP as usize] || post[SSP as usize] != want_ssp {
